@@ -422,9 +422,14 @@ fn run_case(ctx: &Ctx, index: u64, rep: &mut Report) {
             let mut lines = vec!["5 DEF FN D(X) = INT(RND(1) * X) + 1".to_string()];
             let mut kinds = vec![];
             for k in 0..n {
-                let kind = rng.below(7);
+                let kind = rng.below(11);
                 kinds.push(kind);
                 let text = match kind {
+                    // every RND(positive) written in the program text is a draw, whatever surrounds it
+                    7 => "IF RND(1) >= 0 THEN INPUT Q",
+                    8 => "X = 0 AND RND(1) : PRINT RND(0)",
+                    9 => "X = 1 OR RND(1) : PRINT RND(1)",
+                    10 => "IF 0 AND RND(1) THEN PRINT \"no\" ELSE PRINT RND(0)",
                     0 => "PRINT RND(1)",
                     1 => "PRINT RND(FN D(6))",
                     2 => "PRINT FN D(6)",
@@ -450,12 +455,18 @@ fn run_case(ctx: &Ctx, index: u64, rep: &mut Report) {
                         3 => { let a = model.next(); nested = true; if a > 0.0 { model.next() } else { model.latest() } }
                         4 => model.latest(),
                         5 => { model.next(); nested = true; model.latest() }
+                        7 => { model.next(); continue; }
+                        8 | 10 => { model.next(); model.latest() }
+                        9 => { model.next(); model.next() }
                         _ => { model.next(); model.next() }
                     };
                     want.push_str(&format!("{}\n", v));
                 }
-                let out = sess.run_line("RUN", 400);
-                let got = out.printed();
+                let replies = vec!["1".to_string()];
+                let run = crate::exec::run_real(&mut sess, "RUN", &replies, 400);
+                let got = run.printed();
+                struct Outcome { res: Res }
+                let out = Outcome { res: run.final_res() };
                 let state = sess.snapshot().rng_state;
                 if !out.res.is_ok() || got != want || state != model.state {
                     ctx.violation(rep, "C18", "program-sequence", index,
